@@ -1,7 +1,12 @@
 #![allow(dead_code)]
+#![cfg_attr(kani, feature(allocator_api))]
 #[cfg(kani)]
-mod c01;
+pub mod wire;
 #[cfg(kani)]
-mod selftest;
+pub mod stubs;
+#[cfg(kani)]
+pub mod c01;
+#[cfg(kani)]
+pub mod selftest;
 #[cfg(kani)]
 mod playback_gen;
